@@ -163,7 +163,7 @@ fn props() -> Vec<PropDef> {
         level: "fault_enumeration",
         run: props::c19::run,
         quick_runs: 12_000,
-        thorough_runs: 1_600,
+        thorough_runs: 800,
         rule: "one case = one generated problem+settings saved to a real file, then (a) the fault-free round trip (stored data vs originals, settings, load with override, solve of the loaded problem), (b) descriptor faults (/dev/full, read-only, write-only, directory, handle not rewound, stale tail, pipe with 1-7 byte reads), (c) disk faults applied to the stored bytes: quick = lost write + 24 truncations + 40 bit flips + 40 hostile-byte substitutions + sector zeroing + duplicated tail; thorough = every truncation offset and every bit of every byte of the file, plus one substitution per byte; every case is non-trivial (a real file is written, faulted and loaded); distinct = distinct hash of the run's event-shape sequence",
         assumptions: &[
             "files live under <verif>/work/<pid>; the OS provides /dev/full, pipes and regular files",
